@@ -307,6 +307,28 @@ type UnknownDescriptionBlock struct {
 	Data []byte
 }
 
+// maxUnknownBlockData is what fits behind the two header bytes of a DIB whose length is one byte.
+const maxUnknownBlockData = 253
+
+// Size returns the packed size.
+func (u UnknownDescriptionBlock) Size() uint {
+	if len(u.Data) > maxUnknownBlockData {
+		return 2 + maxUnknownBlockData
+	}
+
+	return 2 + uint(len(u.Data))
+}
+
+// Pack assembles the block in the given buffer.
+func (u *UnknownDescriptionBlock) Pack(buffer []byte) {
+	data := u.Data
+	if len(data) > maxUnknownBlockData {
+		data = data[:maxUnknownBlockData]
+	}
+
+	util.PackSome(buffer, uint8(2+len(data)), uint8(u.Type), data)
+}
+
 // Unpack Unknown Description Blocks into a buffer.
 func (u *UnknownDescriptionBlock) Unpack(data []byte) (n uint, err error) {
 	u.Data = make([]byte, len(data))
